@@ -271,6 +271,29 @@ def dead_request(gen, v, rng, t):
     via = pick(vias) if rng.random() < 0.7 else vias[0]
     targets = [t]
     x = rng.random()
+    ce_vias = [q for q in vias if q["via"] == "ce"]
+    if ce_vias and rng.random() < 0.25:
+        # a multi-operand request that names the destroyed subsystem after live ones (nothing may have been
+        # consumed or moved by the time the request is refused)
+        mates = [n for n in v["live"] if v["member_of"].get(n) == g and n != t]
+        if mates:
+            m = pick(mates)
+            order = [m, t] if rng.random() < 0.7 else [t, m]
+            y = rng.random()
+            if y < 0.4 and k == "P" and w.kind(m) == "P":
+                st = {"k": "apply", "op": {"fam": "comp", "type": pick(["CXPolarization", "CZPolarization", "SwapPolarization"])}, "targets": order}
+            elif y < 0.7:
+                st = {"k": "combine", "targets": order}
+            else:
+                dm = v["dims"].get(m) or 2
+                dd = sn.subs[t]["dims"]
+                dt = 2 if k == "P" else (dd if dd and dd > 0 else 2)
+                if dm * dt <= 36:
+                    st = {"k": "kraus", "ops": [c2j(np.eye(dm * dt))], "targets": order}
+                else:
+                    st = {"k": "combine", "targets": order}
+            st.update(pick(ce_vias))
+            return st
     if x < 0.35:
         op = gen.pol_op() if k == "P" else {"fam": "fock", "type": pick(["Creation", "PhaseShift", "Identity"]), "phi": 0.3}
         if k == "F" and op["type"] != "PhaseShift":
@@ -348,9 +371,20 @@ def make_fault(gen, v, rng, kind=None):
         if not cands:
             return None
         t = pick(cands)
-        d = v["dims"][t] + 1
+        d0 = v["dims"][t]
         fam = "pol" if w.kind(t) == "P" else "custom"
-        st = {"k": "apply", "op": {"fam": fam, "type": "Custom", "operator": c2j(ref.haar_unitary(rng, d))}, "targets": [t]}
+        x = rng.random()
+        if x < 0.5:
+            M = ref.haar_unitary(rng, d0 + 1)                      # square, too big
+        elif x < 0.65 and d0 > 1:
+            M = ref.haar_unitary(rng, d0 - 1)                      # square, too small
+        elif x < 0.85:
+            M = ref.haar_unitary(rng, d0 + 1)[: max(1, d0 - int(rng.integers(0, 2))), :d0]   # k x d: right number of columns only
+        else:
+            M = ref.haar_unitary(rng, d0 + 1)[:d0, :]               # d x (d+1): right number of rows only
+        if M.shape == (d0, d0):
+            M = ref.haar_unitary(rng, d0 + 1)
+        st = {"k": "apply", "op": {"fam": fam, "type": "Custom", "operator": c2j(M)}, "targets": [t]}
         via = gen.pick_via(v, [t])
         if via is None or (fam == "custom" and via["via"] == "env"):
             return None
